@@ -407,3 +407,109 @@ macro_rules! c02_kernel_hook {
         });
     };
 }
+
+/// u64-limb view of a digit array (L limbs, zero padded)
+#[inline(always)]
+pub fn limbs_of<D: crate::util::Dig, const N: usize, const L: usize>(d: &[D; N]) -> [u64; L] {
+    let per = 64 / D::BITS as usize;
+    let mut o = [0u64; L];
+    let mut k = 0;
+    while k < N { if k / per < L { o[k / per] |= d[k].to_u64() << ((k % per) as u32 * D::BITS); } k += 1; }
+    o
+}
+/// exact 2L-limb product of two L-limb numbers (+ an L-limb addend)
+#[inline(always)]
+pub fn limb_mul_add<const L: usize, const L2: usize>(a: &[u64; L], b: &[u64; L], c: &[u64; L]) -> [u64; L2] {
+    let mut acc = [0u64; L2];
+    let mut k = 0;
+    while k < L { acc[k] = c[k]; k += 1; }
+    let mut i = 0;
+    while i < L {
+        let mut carry: u128 = 0;
+        let mut j = 0;
+        while j < L {
+            let t = (a[i] as u128) * (b[j] as u128) + acc[i + j] as u128 + carry;
+            acc[i + j] = t as u64;
+            carry = t >> 64;
+            j += 1;
+        }
+        // propagate the row carry
+        let mut k = i + L;
+        while k < L2 { let t = acc[k] as u128 + carry; acc[k] = t as u64; carry = t >> 64; k += 1; }
+        i += 1;
+    }
+    acc
+}
+
+/// Exact multiplication with ONE CONCRETE operand (the other operand and the carry word fully symbolic): the digit products are products by
+/// constants, which the solver decides at widths (64..192 bits) where the two-symbolic-operand multiplier stops at 16 bits.  BITS a multiple of 64.
+#[macro_export]
+macro_rules! c02_cmul {
+    ($name:ident, $unw:expr, $U:ty, $I:ty, $D:ty, $N:expr, $L:expr, $L2:expr, [$($bv:expr),*]) => {
+        $crate::harness!($name, $unw, {
+            use $crate::util::*;
+            use $crate::c02::{limbs_of, limb_mul_add};
+            let (a, ad) = <$U as BN<$D, $N>>::any();
+            let (c, cd) = <$U as BN<$D, $N>>::any();
+            let bd: [$D; $N] = [$($bv),*];
+            let b = <$U as BN<$D, $N>>::mk(bd);
+            let (al, bl, cl): ([u64; $L], [u64; $L], [u64; $L]) = (limbs_of(&ad), limbs_of(&bd), limbs_of(&cd));
+            let zero = [0u64; $L];
+            let p: [u64; $L2] = limb_mul_add(&al, &bl, &zero);
+            let q: [u64; $L2] = limb_mul_add(&al, &bl, &cl);
+            let mut hi_nz = false;
+            let mut k = $L;
+            while k < $L2 { hi_nz |= p[k] != 0; k += 1; }
+            let j: usize = $crate::nd::nd();
+            $crate::nd::assume(j < $L);
+            let (v, f) = a.overflowing_mul(b);
+            let vl: [u64; $L] = limbs_of(&v.dg());
+            assert!(vl[j] == p[j] && f == hi_nz, "unsigned overflowing_mul: low half and flag");
+            let (v2, f2) = b.overflowing_mul(a);
+            assert!(limbs_of::<$D, $N, $L>(&v2.dg())[j] == p[j] && f2 == hi_nz, "commuted operands");
+            match a.checked_mul(b) { Some(x) => assert!(!hi_nz && limbs_of::<$D, $N, $L>(&x.dg())[j] == p[j], "checked_mul Some"), None => assert!(hi_nz, "checked_mul None") }
+            assert!(limbs_of::<$D, $N, $L>(&a.wrapping_mul(b).dg())[j] == p[j], "wrapping_mul");
+            assert!(limbs_of::<$D, $N, $L>(&a.saturating_mul(b).dg())[j] == if hi_nz { u64::MAX } else { p[j] }, "saturating_mul");
+            let (lo, hi) = a.widening_mul(b);
+            assert!(limbs_of::<$D, $N, $L>(&lo.dg())[j] == p[j] && limbs_of::<$D, $N, $L>(&hi.dg())[j] == p[$L + j], "widening_mul");
+            let (lo, hi) = a.carrying_mul(b, c);
+            assert!(limbs_of::<$D, $N, $L>(&lo.dg())[j] == q[j] && limbs_of::<$D, $N, $L>(&hi.dg())[j] == q[$L + j], "carrying_mul");
+            // signed: product of the two's-complement readings
+            let (sa, sb) = (<$I>::from_bits(a), <$I>::from_bits(b));
+            let (na, nb) = (dneg(&ad), dneg(&bd));
+            let ma: [$D; $N] = if na { XD::<$D, { $N + 1 }>::from_s(&ad).neg().low() } else { ad };
+            let mb: [$D; $N] = if nb { XD::<$D, { $N + 1 }>::from_s(&bd).neg().low() } else { bd };
+            let mp: [u64; $L2] = limb_mul_add(&limbs_of::<$D, $N, $L>(&ma), &limbs_of::<$D, $N, $L>(&mb), &zero);
+            let negp = na != nb;
+            // |product| fits: below 2^(BITS-1), or exactly 2^(BITS-1) for a negative product
+            let mut high = false;
+            let mut k = $L;
+            while k < $L2 { high |= mp[k] != 0; k += 1; }
+            let top = mp[$L - 1] >> 63 == 1;
+            let mut low_zero = mp[$L - 1] << 1 == 0;
+            let mut k = 0;
+            while k + 1 < $L { low_zero &= mp[k] == 0; k += 1; }
+            let fits = !high && (!top || (negp && low_zero));
+            let (sv, sf) = sa.overflowing_mul(sb);
+            assert!(sf == !fits, "signed overflowing_mul flag");
+            // wrapped value: low half of +-|product|
+            let svl: [u64; $L] = limbs_of(&sv.dg());
+            let mut low = [0u64; $L];
+            let mut k = 0;
+            while k < $L { low[k] = mp[k]; k += 1; }
+            if negp { // two's complement negate
+                let mut carry = true;
+                let mut k = 0;
+                while k < $L { let (s, c1) = (!low[k]).overflowing_add(carry as u64); low[k] = s; carry = c1; k += 1; }
+            }
+            assert!(svl[j] == low[j], "signed overflowing_mul value");
+            let sat: [u64; $L] = limbs_of(&sa.saturating_mul(sb).dg());
+            let e = if fits { low[j] } else if negp { if j == $L - 1 { 1u64 << 63 } else { 0 } } else if j == $L - 1 { u64::MAX >> 1 } else { u64::MAX };
+            assert!(sat[j] == e, "signed saturating_mul");
+            $crate::reach!(hi_nz, "unsigned overflow");
+            $crate::reach!(!hi_nz && !dzero(&ad), "unsigned representable, non-zero operand");
+            $crate::reach!(!fits, "signed overflow");
+            $crate::reach!(fits && negp, "negative representable product");
+        });
+    };
+}
